@@ -261,9 +261,9 @@ def wire_rdata(rdclass, rdtype, data, qname):
 class WireExchange:
     """what the scripted peer does for one query"""
 
-    def __init__(self, env, ident, where, q, idx, dur, wreply, tcp):
+    def __init__(self, env, ident, where, q, idx, dur, wreply, tcp, port=53):
         kind, aux, msg = wreply
-        self.env, self.where, self.tcp, self.kind = env, where, tcp, kind
+        self.env, self.where, self.tcp, self.kind, self.port = env, where, tcp, kind, port
         self.start = env.clock.ms
         self.arrival = self.start + dur
         self.error = kind == 6
@@ -292,16 +292,16 @@ class WireExchange:
             if aux == 1:
                 r = dns.message.make_response(q)
                 r.id = (q.id + 77) & 0xFFFF
-                self.datagrams.append((early, r.to_wire(), (where, 53)))
+                self.datagrams.append((early, r.to_wire(), (where, port)))
             elif aux == 2:
                 r = dns.message.make_response(dns.message.make_query("spoofed.example.", "A", id=q.id))
-                self.datagrams.append((early, r.to_wire(), (where, 53)))
+                self.datagrams.append((early, r.to_wire(), (where, port)))
             elif aux == 3:
-                self.datagrams.append((early, dns.message.make_response(q).to_wire(), ("10.99.99.99", 53)))
+                self.datagrams.append((early, dns.message.make_response(q).to_wire(), ("10.99.99.99", port)))
             elif aux == 4:
-                self.datagrams.append((early, b"\xff\xfe\xfd", (where, 53)))
+                self.datagrams.append((early, b"\xff\xfe\xfd", (where, port)))
             if genuine is not None:
-                self.datagrams.append((self.arrival, genuine, (where, 53)))
+                self.datagrams.append((self.arrival, genuine, (where, port)))
             self.stream = None
         else:
             if genuine is not None:
@@ -416,7 +416,7 @@ class FakeAsyncDgram(dns._asyncbackend.DatagramSocket):
         pass
 
     async def getpeername(self):
-        return (self.env.exchange.where, 53)
+        return (self.env.exchange.where, self.env.exchange.port)
 
     async def getsockname(self):
         return ("0.0.0.0", 0)
@@ -443,10 +443,29 @@ class FakeAsyncStream(dns._asyncbackend.StreamSocket):
         pass
 
     async def getpeername(self):
-        return (self.env.exchange.where, 53)
+        return (self.env.exchange.where, self.env.exchange.port)
 
     async def getsockname(self):
         return ("0.0.0.0", 0)
+
+
+def endpoint_ident(by_where, where, port):
+    """the scripted server listening on (address, port) - or on that URL -, None when nobody does"""
+    v = by_where.get((where, port))
+    return v if v is not None else by_where.get(where)
+
+
+def no_server(env, q, timeout, tcp):
+    """a query sent where no scripted server listens: nothing is consumed from the script; UDP gets no
+    reply, a TCP connection is refused"""
+    tms = timeout * 1000
+    tms = int(tms) if F(tms).denominator == 1 else -777777
+    env.trace.append([-1, int(tcp), env.pending_backoff, tms, labels_of(q.question[0].name), env.pos])
+    env.pending_backoff = 0
+    if tcp:
+        raise ConnectionRefusedError("no scripted server at this endpoint")
+    env.clock.ms += max(0, tms)
+    raise dns.exception.Timeout(timeout=timeout)
 
 
 class WireLayer:
@@ -460,8 +479,13 @@ class WireLayer:
         if what not in self.anomalies:
             self.anomalies.append(what)
 
-    def begin(self, q, where, timeout, tcp):
+    def begin(self, q, where, timeout, tcp, a, kw):
         env = self.env
+        port = kw.get("port", a[0] if a else 53)
+        ident = endpoint_ident(self.by_where, where, port)
+        if ident is None:
+            self.note(4)  # query sent to an endpoint that is not the configured (address, port)
+            no_server(env, q, timeout, tcp)
         idx = env.pos
         if idx > MAX_QUERIES:
             raise Runaway()
@@ -469,25 +493,25 @@ class WireLayer:
         env.pos += 1
         tms = timeout * 1000
         tms = int(tms) if F(tms).denominator == 1 else -777777
-        env.trace.append([self.by_where.get(where, -1), int(tcp), env.pending_backoff, tms, labels_of(q.question[0].name), idx])
+        env.trace.append([ident, int(tcp), env.pending_backoff, tms, labels_of(q.question[0].name), idx])
         env.pending_backoff = 0
         q.id = idx + 1
-        env.exchange = WireExchange(env, self.by_where.get(where, -1), where, q, idx, dur, wreply, tcp)
+        env.exchange = WireExchange(env, ident, where, q, idx, dur, wreply, tcp, port)
 
     def udp(self, q, where, timeout=None, *a, **kw):
-        self.begin(q, where, timeout, False)
+        self.begin(q, where, timeout, False, a, kw)
         return self.real["udp"](q, where, timeout, *a, **kw)
 
     def tcp(self, q, where, timeout=None, *a, **kw):
-        self.begin(q, where, timeout, True)
+        self.begin(q, where, timeout, True, a, kw)
         return self.real["tcp"](q, where, timeout, *a, **kw)
 
     async def audp(self, q, where, timeout=None, *a, **kw):
-        self.begin(q, where, timeout, False)
+        self.begin(q, where, timeout, False, a, kw)
         return await self.real["audp"](q, where, timeout, *a, **kw)
 
     async def atcp(self, q, where, timeout=None, *a, **kw):
-        self.begin(q, where, timeout, True)
+        self.begin(q, where, timeout, True, a, kw)
         return await self.real["atcp"](q, where, timeout, *a, **kw)
 
     def wait_for(self, fd, readable, writable, _, expiration):
@@ -532,21 +556,29 @@ class Transports:
             self.note(2)
         if not ignore_unexpected:
             self.note(3)
-        if port != 53:
+        ident = endpoint_ident(self.by_where, where, port)
+        if ident is None:
             self.note(4)
-        return scripted_exchange(self.env, self.by_where.get(where, -1), q, timeout, False, raise_on_truncation)
+            no_server(self.env, q, timeout, False)
+        return scripted_exchange(self.env, ident, q, timeout, False, raise_on_truncation)
 
     def tcp(self, q, where, timeout=None, port=53, source=None, source_port=0, one_rr_per_rrset=False,
             ignore_trailing=False, sock=None, backend=None):
-        if port != 53:
+        ident = endpoint_ident(self.by_where, where, port)
+        if ident is None:
             self.note(4)
-        return scripted_exchange(self.env, self.by_where.get(where, -1), q, timeout, True)
+            no_server(self.env, q, timeout, True)
+        return scripted_exchange(self.env, ident, q, timeout, True)
 
     def https(self, q, where, timeout=None, port=443, source=None, source_port=0, one_rr_per_rrset=False,
               ignore_trailing=False, **kw):
         if not kw.get("post", True):
             self.note(5)
-        return scripted_exchange(self.env, self.by_where.get(where, -1), q, timeout, True)
+        ident = endpoint_ident(self.by_where, where, None)
+        if ident is None:
+            self.note(4)
+            no_server(self.env, q, timeout, True)
+        return scripted_exchange(self.env, ident, q, timeout, True)
 
     async def audp(self, *a, **kw):
         return self.udp(*a, **kw)
@@ -705,15 +737,29 @@ def run_case(case, flavour):
         by_ans = {}
         by_port = {}
         ans_to_str = {}
+        # non-53 ports, chosen per case through all three routes: resolver.port (for plain address
+        # strings), the nameserver_ports mapping, Do53Nameserver(address, port) objects
+        salt = len(script) + len(servers) + timeout_ms // 100
+        res.port = 53 if salt % 3 == 0 else 1053 + salt % 7
+        ports = {}
         for ident, kind in servers:
             if ident in seen:  # the same identifier listed twice is the same object listed twice
                 objs.append(seen[ident])
                 continue
             if kind == 0:
-                o = do53_address(ident)
-                by_where[o] = ident
-                by_str[f"Do53:{o}@53"] = ident
-                by_ans[o] = ident
+                addr = do53_address(ident)
+                route = (salt + ident) % 3
+                if route == 0:
+                    o, port = addr, res.port
+                elif route == 1:
+                    o, port = addr, 5300 + ident
+                    ports[addr] = port
+                else:
+                    port = 5400 + ident
+                    o = dns.nameserver.Do53Nameserver(addr, port)
+                by_where[(addr, port)] = ident
+                by_str[f"Do53:{addr}@{port}"] = ident
+                by_ans[addr] = ident
             elif kind == 1:
                 o = doh_url(ident)
                 by_where[o] = ident
@@ -725,7 +771,8 @@ def run_case(case, flavour):
                 by_ans[o.answer_nameserver()] = ident
             seen[ident] = o
             objs.append(o)
-        for o in res._enrich_nameservers(list(seen.values()), {}, 53):
+        res.nameserver_ports = ports
+        for o in res._enrich_nameservers(list(seen.values()), ports, res.port):
             by_port[str(o)] = o.answer_port()
             ans_to_str[o.answer_nameserver()] = str(o)
         res.nameservers = objs
@@ -1942,7 +1989,57 @@ def extra(ctx):
         dns.query.udp = saved
     if set(seen) != {("10.9.9.1", 1053), ("10.9.9.2", 5300)}:
         fails.append({"kind": "C16:nameserver", "sig": "nameserver-ports", "what": "resolver.port / nameserver_ports do not reach the transport", "seen": sorted(set(seen))})
-    ctx.notes["extra_evaluations"] = len(facts) + 2
+    # every nameserver class hands its configured endpoint (address / url, port, hostname) to its transport,
+    # over UDP and TCP, sync and async
+    calls = []
+
+    def rec(name):
+        def f(q, where, *a, **kw):
+            calls.append((name, where, kw.get("port", a[1] if len(a) > 1 else None), kw.get("server_hostname")))
+            raise dns.exception.Timeout
+
+        async def af(q, where, *a, **kw):
+            kw.pop("backend", None)
+            return f(q, where, *a, **kw)
+
+        return f, af
+
+    names = ["udp", "tcp", "tls", "quic", "https"]
+    saved_q = {n: (getattr(dns.query, n), getattr(dns.asyncquery, n)) for n in names}
+    try:
+        for n in names:
+            f, af = rec(n)
+            setattr(dns.query, n, f)
+            setattr(dns.asyncquery, n, af)
+        rq = dns.message.make_query("example.", "A")
+        objs = [
+            (ns.Do53Nameserver("10.1.1.1", 5353), False, ("udp", "10.1.1.1", 5353, None)),
+            (ns.Do53Nameserver("10.1.1.1", 5353), True, ("tcp", "10.1.1.1", 5353, None)),
+            (ns.DoTNameserver("10.1.1.2", 8853, hostname="dot.example"), False, ("tls", "10.1.1.2", 8853, "dot.example")),
+            (ns.DoQNameserver("10.1.1.3", 8854, server_hostname="doq.example"), False, ("quic", "10.1.1.3", 8854, "doq.example")),
+            (ns.DoHNameserver("https://doh.example:8443/dns-query"), True, ("https", "https://doh.example:8443/dns-query", None, None)),
+        ]
+        for o, max_size, want in objs:
+            for flavour in ("sync", "async"):
+                calls.clear()
+                try:
+                    if flavour == "sync":
+                        o.query(rq, 1.0, None, 0, max_size)
+                    else:
+                        get_loop().run_until_complete(o.async_query(rq, 1.0, None, 0, max_size, Backend(Clock())))
+                except dns.exception.Timeout:
+                    pass
+                except Exception as e:  # noqa: BLE001
+                    calls.append(("error", repr(e)[:80], None, None))
+                if calls != [want]:
+                    fails.append({"kind": "C16:nameserver", "sig": "nameserver-endpoint-%s-%s-%s" % (type(o).__name__, want[0], flavour),
+                                  "what": "dns.nameserver: %s.%s does not send the query to its configured endpoint" % (type(o).__name__, "query" if flavour == "sync" else "async_query"),
+                                  "expected": list(want), "got": [list(c) for c in calls]})
+    finally:
+        for n in names:
+            setattr(dns.query, n, saved_q[n][0])
+            setattr(dns.asyncquery, n, saved_q[n][1])
+    ctx.notes["extra_evaluations"] = len(facts) + 2 + 10
     return fails
 
 
